@@ -130,7 +130,8 @@ class _Ctl:
             self.say(200, 'type set')
         elif v == 'PASV':
             port = srv.next_port
-            srv.next_port += 1
+            if not srv.faults.get('pasv_reuse'):
+                srv.next_port += 1
             self.data_conn = None
             srv.net.listen(srv.ip, port, lambda c: _Dat(self, c))
             a = srv.ip.split('.')
